@@ -125,7 +125,8 @@ def run(ctx):
                             overrides=ctx.pick({}, {"SegToks": set(toks_t), "PathLen": 3, "Queries": {"noq", "emptyq", "q1", "qevil", "qsp"}}),
                             required_actions=["request"])
         paths += W.mc_states(ctx, "webstatic", "SlashRedirect", "MC_SlashRedirect.cfg",
-                             overrides={"Methods": {"HEAD", "POST"}, "PathLen": 2, "SegToks": set(toks_t)}, required_actions=["request"])
+                             overrides={"Methods": {"HEAD", "POST"}, "PathLen": 2, "SegToks": set(toks_t),
+                                        "Queries": set(ctx.pick(["noq", "q1"], ["noq", "emptyq", "q1", "qevil"]))}, required_actions=["request"])
         if not ctx.quick:
             paths += W.mc_states(ctx, "webstatic", "SlashRedirect", "MC_SlashRedirect.cfg",
                                  overrides={"SegToks": set(toks_q), "PathLen": 4, "Queries": {"noq", "q1"}}, required_actions=["request"])
@@ -137,13 +138,17 @@ def run(ctx):
             raise framework.Machinery("vacuity: expectation modes %r" % modes)
         ctx.replay(paths, replayer, nontrivial=lambda e, p: len(p[0]["args"][1]) > 1)
         ctx.cov["exhaustive"] = True
-        sims = ctx.sim_paths("webstatic", "Gen_SlashRedirect", "Gen_SlashRedirect.cfg", num=ctx.pick(40, 300), depth=7)
+        sims = ctx.sim_paths("webstatic", "Gen_SlashRedirect", "Gen_SlashRedirect.cfg", num=ctx.pick(20, 300), depth=7, timeout=ctx.pick(900, 1500))
         ctx.replay(sims, replayer, label="s2c-sim")
         ctx._phase("mc+s2c", t0)
         t0 = time.time()
         # code -> spec: observations of the enumerated requests (grouped into traces) and of random requests
+        # (the quick tier re-validates only the requests whose expectation the replayer cannot decide
+        # completely by comparison: modes "safe" and "ifredirect")
         group = {}
         for e, p in paths:
+            if ctx.quick and p[0]["exp"]["mode"] in ("exact", "noredirect"):
+                continue
             group.setdefault(e["cfg"]["kind"], []).append(p[0])
         items, tid = [], 0
         for kind, steps in sorted(group.items()):
@@ -157,7 +162,7 @@ def run(ctx):
         ctx.note("static_redirects_observed", nredir)
         if not nredir:
             raise framework.Machinery("vacuity: the static handler never redirected")
-        ctx.validate("webstatic", "Trace_SlashRedirect", "Trace_SlashRedirect.cfg", traces, shards=ctx.pick(2, None), sig_fn=_trace_sig)
+        ctx.validate("webstatic", "Trace_SlashRedirect", "Trace_SlashRedirect.cfg", traces, shards=ctx.pick(2, None), sig_fn=_trace_sig, timeout=ctx.pick(900, 1500))
         ctx._phase("c2s", t0)
         ctx.cov["rule"] = ("requests: every path of <= 3 segments over the segment alphabet x queries x 7 handler configurations (GET), <= 2 "
                            "segments for HEAD/POST; TLC simulation walks; all of them plus random requests validated by TLC via Accept; "
